@@ -162,6 +162,31 @@ def run(ctx):
             ok_align, why = False, "the returned vector is not the one results are pushed to"
     ctx.ob("S-ALIGN", "parse_multi: one pushed result per input", ok_align, why, "%s:%s" % (pm["span"]["file"], pm["span"]["line"]))
 
+    # ---------------- S-SIBLING: the reused state after reset_to(input, head) equals the fresh state from_env(format, _build_env(input), head)
+    ctx.rule("S-SIBLING", "reset_to establishes field by field what the fresh route establishes: env := _build_env(input) (the only str -> env "
+             "conversion), len_env := env.len() of that value (P-COUPLE; from_env couples the same way, S-FRESH), head := the head argument, "
+             "mid_result := new() -- so parse_multi's i-th parse starts from the state parse(input_i) starts from")
+    import panics
+    panics.rule_P_COUPLE(ctx)
+    rb = f.mir_fn("reset_to", module="impl_enum::parser")
+    ctx.fn(rb)
+    rg = mir.cfg(rb)
+    stores = {}
+    for bi in sorted(rg.reach):
+        if rb["blocks"][bi]["cleanup"]:
+            continue
+        for st_ in rb["blocks"][bi]["stmts"]:
+            if st_["k"] == "Assign" and st_["place"]["proj"]:
+                r_, pth = rg.resolve_place(st_["place"])
+                if r_ == ("arg", 1) and len(pth) == 1:
+                    stores[pth[0]] = st_["rv"]
+    def src_of(rv):
+        return rg.resolve_operand(rv["op"]) if rv["k"] == "Use" else None
+    e = src_of(stores["env"]) if "env" in stores else None
+    ok = e is not None and e[0][0] == "call" and mir.callee_name(e[0][1]) == "_build_env" and rg.resolve_operand(e[0][1]["args"][0])[0] == ("arg", 2)
+    ctx.ob("S-SIBLING", "reset_to: env := _build_env(input)", ok, "%s" % (e[0][0] if e else None,))
+    h = src_of(stores["head"]) if "head" in stores else None
+    ctx.ob("S-SIBLING", "reset_to: head := the head argument", h is not None and h[0] == ("arg", 3) and not h[1], "%s" % (h,))
     # ---------------- S-FRESH
     ctx.rule("S-FRESH", "every other entry point builds its ParseState by the one struct aggregate in from_env (all fields initialised, "
              "mid_result from NarseseOptions::new) and uses it for one parse; parse and parse_chars converge on from_env + ParseState::parse "
